@@ -49,15 +49,28 @@ class Directive:
         self.payload = []
 
 
+def expand_parts(text):
+    """`@@part <file> [nolabels]`: textual inclusion of unit directives shared between units; with
+    `nolabels` the obligation labels are stripped (the part's obligations are counted in another unit)."""
+    def rep(m):
+        t = open(os.path.join(VERIF, 'verus', m.group(1))).read().rstrip('\n')
+        if m.group(2):
+            t = re.sub(r'[ \t]*//\s*@[C0-9,]+\s+\S+[ \t]*$', '', t, flags=re.M)
+            t = re.sub(r'^@@include (spec/nv_lemmas\.rs)$', r'@@use \1', t, flags=re.M)
+        return t
+    return re.sub(r'^@@part\s+(\S+)(\s+nolabels)?\s*$', rep, text, flags=re.M)
+
+
 def unit_text(path):
     """Unit text; `@@derive <unit> <fn> <hints file> <rlimit>` = the other unit with the external_body
     attribute of <fn> replaced by the proof hints (the function's body is verified in this unit against
     the same contract text, and assumed under that contract in the other one)."""
     text = open(path).read()
+    text = expand_parts(text)
     m = re.search(r'^@@derive\s+(\S+)\s+(\S+)\s+(\S+)\s+(\d+)(?:\s+(.+?))?\s*$', text, re.M)
     if not m:
         return text
-    base = open(os.path.join(os.path.dirname(path), m.group(1))).read()
+    base = expand_parts(open(os.path.join(os.path.dirname(path), m.group(1))).read())
     hints = open(os.path.join(VERIF, 'verus', m.group(3))).read().rstrip('\n')
     # optional 5th field: the @@impl header the fn lives in (to disambiguate equal fn names)
     ctx = r'@@impl ' + re.escape(m.group(5)) + r'\n(?:(?!@@end\n)[\s\S])*?' if m.group(5) else ''
